@@ -56,6 +56,9 @@ var reviewedDropped = map[string]string{
 }
 
 func runC08(p *Prog, r *Report) {
+	if want("C08.22") {
+		ruleWriteBlockErrorStops(p, r, "C08.22")
+	}
 	if want("C08.21") {
 		ruleOptGetters(p, r, "C08.21", "strictness decides whether damage is reported", "Options.GetStrict", "ReadOptions.GetStrict")
 	}
